@@ -155,46 +155,22 @@ pub fn create_number_constructor(interp: &mut Interpreter) -> Gc<JsObject> {
     constructor
 }
 
-/// Number.parseFloat - same as global parseFloat
+/// Number.parseFloat - the same function as the global parseFloat
 pub fn number_parse_float(
     interp: &mut Interpreter,
-    _this: JsValue,
+    this: JsValue,
     args: &[JsValue],
 ) -> Result<Guarded, JsError> {
-    let arg = args.first().cloned().unwrap_or(JsValue::Undefined);
-    let s = interp.to_js_string(&arg).to_string();
-
-    let trimmed = s.trim_start();
-    let result = trimmed.parse::<f64>().unwrap_or(f64::NAN);
-    Ok(Guarded::unguarded(JsValue::Number(result)))
+    super::global::global_parse_float(interp, this, args)
 }
 
-/// Number.parseInt - same as global parseInt
+/// Number.parseInt - the same function as the global parseInt
 pub fn number_parse_int(
     interp: &mut Interpreter,
-    _this: JsValue,
+    this: JsValue,
     args: &[JsValue],
 ) -> Result<Guarded, JsError> {
-    let arg = args.first().cloned().unwrap_or(JsValue::Undefined);
-    let s = interp.to_js_string(&arg).to_string();
-    let radix = args.get(1).map(|v| v.to_number() as i32).unwrap_or(10);
-
-    let trimmed = s.trim_start();
-
-    // Handle radix
-    let radix = if radix == 0 {
-        10
-    } else if !(2..=36).contains(&radix) {
-        return Ok(Guarded::unguarded(JsValue::Number(f64::NAN)));
-    } else {
-        radix
-    };
-
-    let result = i64::from_str_radix(trimmed, radix as u32)
-        .map(|n| n as f64)
-        .unwrap_or(f64::NAN);
-
-    Ok(Guarded::unguarded(JsValue::Number(result)))
+    super::global::global_parse_int(interp, this, args)
 }
 
 // Number.isNaN - stricter, no type coercion
@@ -392,7 +368,10 @@ pub fn number_to_string(
     args: &[JsValue],
 ) -> Result<Guarded, JsError> {
     let n = get_number_value(interp, &this)?;
-    let radix = args.first().map(|v| v.to_number() as i32).unwrap_or(10);
+    let radix = match args.first() {
+        None | Some(JsValue::Undefined) => 10,
+        Some(v) => v.to_number() as i32,
+    };
 
     if !(2..=36).contains(&radix) {
         return Err(JsError::range_error(
@@ -531,16 +510,17 @@ pub fn number_to_precision(
 
     let precision = args.first().map(|v| v.to_number() as i32).unwrap_or(1);
 
-    if !(1..=100).contains(&precision) {
-        return Err(JsError::range_error(
-            "toPrecision() argument must be between 1 and 100",
-        ));
-    }
-
+    // NaN and the infinities are returned as they print, whatever the precision
     if !n.is_finite() {
         return Ok(Guarded::unguarded(JsValue::String(JsString::from(
             format_number_js(n),
         ))));
+    }
+
+    if !(1..=100).contains(&precision) {
+        return Err(JsError::range_error(
+            "toPrecision() argument must be between 1 and 100",
+        ));
     }
 
     let mut result = String::new();
